@@ -10,7 +10,13 @@ instance; the characters the statement enumerates (core) and those the quantifie
  (single) pre + '\\' + c + post, pre/post inert (letters, single inner spaces), c escapable, in a paragraph and inside a
           heading / list item / block quote / emphasis / strong: the character renders as c and the construct is intact.
           Also inside real markup: link / image title, link text, image alt text, directly after a hard line break, in front of and
-          inside a reference link that has a definition; with tables: in a body / header cell directly in front of the column separator.
+          inside a reference link that has a definition; with tables: in a body / header cell directly in front of the column separator, and in
+          a row of a would-be ONE-COLUMN table (border pipe on the right or on the left; last row, middle row, header row): a row whose only
+          pipe is escaped (`b \\|`) has no border pipe, so the block is a paragraph in which the escaped character is literal.
+ (options) both relations also with the documented boolean options of the two extensions at their NON-default value (OPTION_CONFIGS: smarty
+          smart_quotes / smart_dashes / smart_ellipses = False, smart_angled_quotes = True, all four at once; tables use_align_attribute = True):
+          which substitutions an extension performs does not change which characters it makes escapable (short exhaustive strings, every
+          single-escape context with 4 of the 10 shapes, a share of the random texts; late registration WITH options in history mode).
  (long)   (all) on ONE text with more than 10 000 escaped characters in a single paragraph (`long_text()`, deterministic): the inline
           stash is numbered per document and its ids outgrow four digits.
 
@@ -38,6 +44,19 @@ NEEDS_DRIVER = False
 MULT = 4
 FINDINGS = []          # no known finding for C07
 CONFIGS = [[], ['tables'], ['smarty'], ['smarty', 'tables']]
+# the same extensions with their documented boolean options set to the NON-default value (smarty: smart_quotes / smart_dashes /
+# smart_ellipses default True, smart_angled_quotes default False; tables: use_align_attribute default False): the escapable set an
+# extension adds does not depend on which of its substitutions are switched on (`\"` is a literal `"` also with smart_quotes off)
+OPTION_CONFIGS = [(['smarty'], {'smarty': {'smart_quotes': False}}),
+                  (['smarty'], {'smarty': {'smart_dashes': False}}),
+                  (['smarty'], {'smarty': {'smart_ellipses': False}}),
+                  (['smarty'], {'smarty': {'smart_angled_quotes': True}}),
+                  (['smarty'], {'smarty': {'smart_quotes': False, 'smart_dashes': False, 'smart_ellipses': False, 'smart_angled_quotes': True}}),
+                  (['tables'], {'tables': {'use_align_attribute': True}}),
+                  (['smarty', 'tables'], {'smarty': {'smart_quotes': False}, 'tables': {'use_align_attribute': True}})]
+LATE_OPTIONS = {'smarty': [{'smart_quotes': False}, {'smart_dashes': False, 'smart_ellipses': False}, {'smart_angled_quotes': True},
+                           {'smart_quotes': False, 'smart_angled_quotes': True}],
+                'tables': [{'use_align_attribute': True}]}
 # what the statement itself enumerates (core) and what the quantifier names for the two extensions: these characters
 # MUST be escapable; a character the running code adds on top is tested too (the set used is the union)
 STATED_CORE = list('\\`*_{}[]()>#+-.!')
@@ -136,15 +155,24 @@ CONTEXTS += [('title', '[t](/u "X")', '<p><a href="/u" title="X">t</a></p>', 'at
 _TABLE = '<table>\n<thead>\n<tr>\n<th>%s</th>\n<th>%s</th>\n</tr>\n</thead>\n<tbody>\n<tr>\n<td>%s</td>\n<td>%s</td>\n</tr>\n</tbody>\n</table>'
 # with the tables extension: the character in a body / header cell, directly in front of the column separator (cells are stripped: 'strip')
 CONTEXTS_EXT = {'tables': [('table-cell', 'h1 | h2\n--- | ---\nX| b', _TABLE % ('h1', 'h2', 'X', 'b'), 'strip'),
-                           ('table-head', 'X| h2\n--- | ---\na | b', _TABLE % ('X', 'h2', 'a', 'b'), 'strip')]}
+                           ('table-head', 'X| h2\n--- | ---\na | b', _TABLE % ('X', 'h2', 'a', 'b'), 'strip'),
+                           # one-column tables: EVERY row needs a real border pipe.  A row whose only pipe is escaped (`b \\|`, `\\| b`) -- or that
+                           # has no pipe at all -- has none, so the block is no table but a paragraph in which the escaped character is literal;
+                           # the row is the last one, a middle one, or the header; border on the right or on the left
+                           ('table-1col-last', 'h |\n- |\nX', '<p>h |\n- |\nX</p>'),
+                           ('table-1col-last-l', '| h\n| -\nX', '<p>| h\n| -\nX</p>'),
+                           ('table-1col-mid', 'h |\n- |\nX\nr2 |', '<p>h |\n- |\nX\nr2 |</p>'),
+                           ('table-1col-mid-l', '| h\n| -\n| r1\nX\n| r3', '<p>| h\n| -\n| r1\nX\n| r3</p>'),
+                           ('table-1col-head', 'X\n- |\nb |', '<p>X\n- |\nb |</p>'),
+                           ('table-1col-head-l', 'X\n| -\n| b', '<p>X\n| -\n| b</p>')]}
 ONE_LINE = ('h1', 'h3-closed', 'setext', 'quote', 'ul', 'ol', 'title', 'img-title', 'img-alt', 'table-cell', 'table-head')
 SHAPES = [('', ''), ('foo ', ' bar'), ('foo', 'bar'), ('foo ', ''), ('', ' bar'), ('foo', ''), ('', 'bar'), ('foo\n', ' bar'), ('foo bar\nbaz ', '\nqux'), ('fo o', 'b ar')]
 
 
-def single_cases(esc, rng=None, k=None, exts=()):
+def single_cases(esc, rng=None, k=None, exts=(), shapes=None):
     """(context, source X, rendered X) — all of them, or k random ones"""
     ctxs = CONTEXTS + [c for e in exts for c in CONTEXTS_EXT.get(e, [])]
-    allc = [(ctx, pre, c, post) for ctx in ctxs for (pre, post) in SHAPES for c in esc]
+    allc = [(ctx, pre, c, post) for ctx in ctxs for (pre, post) in (shapes or SHAPES) for c in esc]
     if k is not None and rng is not None:
         allc = [rng.choice(allc) for _ in range(k)]
     for ctx, pre, c, post in allc:
@@ -167,19 +195,27 @@ def long_text(lines=400):
 
 
 class Conv:
-    def __init__(self, exts):
-        self.exts = list(exts); self.md = markdown.Markdown(extensions=self.exts)
-        self.read = list(markdown.Markdown(extensions=self.exts).ESCAPED_CHARS)
+    def __init__(self, exts, cfg=None):
+        self.exts = list(exts); self.cfg = cfg or {}
+        self.md = markdown.Markdown(extensions=self.exts, extension_configs=self.cfg)
+        self.read = list(markdown.Markdown(extensions=self.exts, extension_configs=self.cfg).ESCAPED_CHARS)
         self.stated = STATED_CORE + [c for e in self.exts for c in STATED_EXT.get(e, [])]
         self.esc = self.read + [c for c in self.stated if c not in self.read]
         self.missing = [c for c in self.stated if c not in self.read]
+        self.key = ('+'.join(self.exts) or 'core') + (''.join('/%s.%s=%s' % (e, k, v) for e, d in sorted(self.cfg.items()) for k, v in sorted(d.items())))
+
+    def config(self, **kw):
+        d = {'extensions': self.exts}
+        if self.cfg: d['extension_configs'] = self.cfg
+        d.update(kw)
+        return d
 
     def __call__(self, src):
         self.md.reset()
         try:
             return self.md.convert(src)
         except Exception as e:
-            self.md = markdown.Markdown(extensions=self.exts)
+            self.md = markdown.Markdown(extensions=self.exts, extension_configs=self.cfg)
             return 'EXCEPTION %s: %s' % (type(e).__name__, str(e)[:100])
 
 
@@ -218,7 +254,7 @@ def run_history(h):
             md.reset(); md.convert(src)
         for act in h['late']:
             if act[0] == 'register':
-                md.registerExtensions([act[1]], {})
+                md.registerExtensions([act[1]], {act[1]: act[2]} if len(act) > 2 and act[2] else {})
                 stated = stated + [c for c in STATED_EXT.get(act[1], []) if c not in stated]
             else:
                 if act[1] not in md.ESCAPED_CHARS: md.ESCAPED_CHARS.append(act[1])
@@ -238,8 +274,10 @@ def gen_history(rng):
     for _ in range(rng.randint(1, 2)):
         r = rng.random()
         if r < 0.55:
-            cand = [e for e in ('tables', 'smarty') if e not in base and ['register', e] not in late]
-            if cand: late.append(['register', rng.choice(cand)]); continue
+            cand = [e for e in ('tables', 'smarty') if e not in base and not any(a[:2] == ['register', e] for a in late)]
+            if cand:
+                e = rng.choice(cand)
+                late.append(['register', e] + ([rng.choice(LATE_OPTIONS[e])] if rng.random() < 0.4 else [])); continue
         late.append(['append', rng.choice(LATE_CHARS)])
     prior = []
     for _ in range(rng.randint(1, 3)):
@@ -265,31 +303,32 @@ def search(driver, rng, n):
     L = 3 if n < 20000 else 4
     dist['exhaustive_maxlen'] = L
     cases = 0
-    convs = [Conv(c) for c in CONFIGS]
+    convs = [Conv(c) for c in CONFIGS] + [Conv(e, c) for e, c in OPTION_CONFIGS]
     core_esc = convs[0].esc
 
     def report(kind, conv, t, src, out, want):
         if out.startswith('EXCEPTION'): dist['exceptions'] += 1
-        viol.append({'input': src, 'config': {'extensions': conv.exts, 'kind': kind, 'unescaped_text': t}, 'observed': out[:600], 'required': want, 'finding': None})
+        viol.append({'input': src, 'config': conv.config(kind=kind, unescaped_text=t), 'observed': out[:600], 'required': want, 'finding': None})
 
     for conv in convs:
-        key = '+'.join(conv.exts) or 'core'
+        key = conv.key
         dist['escapables'][key] = ''.join(conv.read)
         if conv.missing:
-            viol.append({'input': '\\' + conv.missing[0], 'config': {'extensions': conv.exts, 'kind': 'escapable-set', 'unescaped_text': conv.missing[0]},
+            viol.append({'input': '\\' + conv.missing[0], 'config': conv.config(kind='escapable-set', unescaped_text=conv.missing[0]),
                          'observed': 'ESCAPED_CHARS = %r lacks %r' % (''.join(conv.read), ''.join(conv.missing)),
                          'required': '<p>' + cdata(conv.missing[0]) + '</p>', 'finding': None})
         extra = [c for c in conv.esc if c not in core_esc]
         # exhaustive short strings; for the extension configs the longest length only with one of the added characters in it
         # (the others are the core's cases again), and at n < 20000 length 3 only for the core
         Lc = L if not conv.exts else L - 1 if n < 20000 else L
+        if conv.cfg: Lc = min(Lc, 2 if n < 20000 else 3)        # option configs: the short strings + every single-escape context
         for t in exhaustive(conv.esc, Lc, must=extra or None):
             cases += 1; dist['exhaustive_cases'] += 1
             ok, src, out, want = check_all(conv, t)
             if any(c in conv.esc for c in t): seen.add((key, t))
             if not ok: report('all-escaped/exhaustive', conv, t, src, out, want)
         # single escape, every escapable x context x shape
-        for ctx, sx, rx in single_cases(conv.esc, exts=conv.exts):
+        for ctx, sx, rx in single_cases(conv.esc, exts=conv.exts, shapes=SHAPES[:4] if conv.cfg else None):     # option configs: 4 of the 10 shapes
             cases += 1; dist['single_cases'] += 1
             ok, src, out, want = check_single(conv, ctx, sx, rx)
             seen.add((key, ctx[0], sx))
@@ -303,9 +342,10 @@ def search(driver, rng, n):
         i = next((k for k in range(min(len(out), len(want))) if out[k] != want[k]), min(len(out), len(want)))
         viol.append({'input': 'long_text()', 'config': {'extensions': [], 'kind': 'all-escaped/long', 'unescaped_text': 'long_text()'},
                      'observed': 'first difference at offset %d: %r' % (i, out[max(0, i - 40):i + 60]), 'required': '<p> + long_text() + </p>: %r' % want[max(0, i - 40):i + 60], 'finding': None})
+    pick = [0, 0, 0, 0, 1, 1, 2, 2, 3, 3] + list(range(len(CONFIGS), len(convs)))
     for i in range(MULT * n):
-        conv = convs[rng.choice([0, 0, 1, 2, 3])]
-        key = '+'.join(conv.exts) or 'core'
+        conv = convs[rng.choice(pick)]
+        key = conv.key
         t = rand_text(rng, conv.esc)
         if not in_domain(t):
             dist['repaired_empty'] += 1; continue
@@ -320,7 +360,7 @@ def search(driver, rng, n):
                 if c in conv.esc: dist['esc_chars_hit'][c] = dist['esc_chars_hit'].get(c, 0) + 1
         if not ok: report('all-escaped/random', conv, t, src, out, want)
         if len(samples) < 5 and i % max(1, MULT * n // 5) == 0:
-            samples.append({'extensions': conv.exts, 'text': t, 'source': src, 'output': out})
+            samples.append({'extensions': conv.exts, 'extension_configs': conv.cfg, 'text': t, 'source': src, 'output': out})
     # history mode: one case per unit of budget
     dist['history_cases'] = 0; dist['history_late'] = {}
     for i in range(n):
@@ -347,11 +387,11 @@ def replay(witness):
         return not run_history(witness)[0]
     if witness.get('source') == 'long_text()':
         return not check_all(Conv([]), long_text())[0]
-    conv = Conv(witness.get('extensions', []))
+    conv = Conv(witness.get('extensions', []), witness.get('extension_configs'))
     return conv(witness['source']) != witness['required']
 
 
 def replay_violation(v):
     if isinstance(v['input'], dict):
         return replay(v['input'])
-    return replay({'extensions': v['config']['extensions'], 'source': v['input'], 'required': v['required']})
+    return replay({'extensions': v['config']['extensions'], 'extension_configs': v['config'].get('extension_configs'), 'source': v['input'], 'required': v['required']})
